@@ -331,6 +331,11 @@ class NodeSuite(Suite):
         event can depend on the actual state (handshakes that complete, coherent peer publications, faults at
         deep states). A hostile history is a friendly prefix followed by arbitrary events. """
         cfg = self.gen_cfg(rng)
+        # slave bias (1 history in 4): the local instance (lowest nick identifier, hence the natural winner of every
+        # election) is not a core instance while a peer is: that peer wins, the local instance lives as a slave
+        slave_master = rng.randint(2, 6) if rng.random() < 0.25 else 0
+        if slave_master:
+            cfg['core_ids'] = sorted({slave_master} | ({rng.randint(2, 6)} if rng.random() < 0.3 else set()))
         run = NodeRunner(self, cfg)
         supv = run.supv
         ctx, sm = supv.context, supv.state_modes
@@ -338,6 +343,8 @@ class NodeSuite(Suite):
         hostile_from = rng.randint(3, n_ev) if hostile else n_ev + 1
         now, cnt = 1000, 0
         peers = rng.sample(range(2, 7), rng.randint(1, 5))
+        if slave_master and slave_master not in peers:
+            peers.append(slave_master)
         alive = set(peers)
         pcnt = {j: rng.randint(0, 30) for j in range(1, 7)}
         pstate = {j: 'OFF' for j in range(1, 7)}     # what each peer would publish as its own FSM state
@@ -350,6 +357,11 @@ class NodeSuite(Suite):
         evs = []
         # late joiner mode: the peers already form a working cluster with an established Master among them
         established = min(peers) if rng.random() < 0.3 else 0
+        if slave_master:
+            established = min(set(cfg['core_ids']) & set(peers))
+        # follower mode (2 late joiners in 3): the peers are well-behaved (settled, identical views, all declaring the
+        # established Master), so that the local instance gets through ELECTION as a slave and follows its Master
+        follower = bool(established) and (bool(slave_master) or rng.random() < 0.66)
         if established:
             st0 = rng.choice(['OPERATION', 'CONCILIATION', 'DISTRIBUTION', 'OPERATION', 'OPERATION', 'SHUTTING_DOWN',
                               'RESTARTING', 'ELECTION'])
@@ -392,10 +404,10 @@ class NodeSuite(Suite):
             for k in range(1, 7):
                 s = ist(k)
                 s = {'CHECKED': 'RUNNING', 'CHECKING': 'STOPPED', 'FAILED': 'STOPPED'}.get(s, s) \
-                    if rng.random() < 0.85 else s
+                    if follower or rng.random() < 0.85 else s
                 view.append((k, ISTATES[INAMES.index(s)]))
             m = idx(sm.master_identifier)
-            if established and established in alive and rng.random() < 0.9:
+            if established and established in alive and (follower or rng.random() < 0.9):
                 m = established
                 view = [(k, 'IRUNNING' if (k in alive or k == 1) and s in ('IRUNNING', 'ISTOPPED') and
                          (k == 1 or k in peers) and (k != 1 or s == 'IRUNNING') else s) for k, s in view]
@@ -439,7 +451,18 @@ class NodeSuite(Suite):
                         alive.discard(rng.choice(hs))     # a peer hosting a process falls silent under a working Master
                         continue
                 j = rng.choice(sorted(alive) + [1]) if alive else rng.choice(peers + [1])
-                if j == 1 and ist(1) == 'CHECKING':
+                forced = None
+                if follower and established in alive and ist(established) == 'RUNNING' and not sm.is_master() \
+                        and sm.state.value in (2, 3, 4, 5) and rng.random() < 0.35:
+                    # the established Master publishes its state & modes: the slave can follow it
+                    now += rng.randint(0, 1)
+                    if sm.state.value in (4, 5) and rng.random() < 0.5:
+                        # ... and wanders between OPERATION and CONCILIATION (conflicts found / solved)
+                        pstate[established] = 'CONCILIATION' if sm.state.value == 4 else 'OPERATION'
+                    forced = coherent_state(established, now)
+                if forced is not None:
+                    e = forced
+                elif j == 1 and ist(1) == 'CHECKING':
                     now += rng.randint(0, 1)
                     r2 = rng.random()
                     if r2 < 0.15:
